@@ -213,6 +213,12 @@ func checkC13(c *Check) {
 		ruleXXHLazyInit(c, p, "R13.11")
 		c.RuleDoc["R13.13"] = "= R02.7/R08.13: what the content hash will read is never the caller's buffer once Write has returned (in-place compression only in sequential mode)"
 		ruleDirectWrite(c, p, "R13.13")
+		ruleBlockChecksumVerified(c, p, "R13.14")
+		c.RuleDoc["R13.14"] = "= R05.2: with block checksums declared, every accepting return of Uncompress lies behind the comparison of the recomputed XXH32 with the stored word, for stored and compressed blocks alike"
+		ruleBlockChecksumOnEveryPath(c, p, "R13.15")
+		ruleObserversPureOf(c, p, "R13.16", []obsSpec{{"internal/xxh32", "XXHZero.Sum32"}}, 1)
+		c.RuleDoc["R13.16"] = "reading the digest does not change the running state (Sum32 stores to no field, directly, deferred or in a callee): a digest read twice, or read and then extended, stays the XXH32 of everything written"
+		c.RuleDoc["R13.15"] = "= R02.22: every path through Compress decides (and where declared stores) the block checksum"
 		c.RuleDoc["R13.12"] = "= R09.3 (content part): what is fed to the content hash is the uncompressed source of the block being written, recorded unconditionally by Compress"
 		c.only(func(k string) bool { return strings.HasPrefix(k, "Write#contentchecksum") }, func() { ruleChecksumCoverage(c, p, "R13.12") })
 	}
